@@ -26,27 +26,43 @@ Definition item_eqb (a b : item) : bool :=
   Z.eqb (it_iss a) (it_iss b) && Z.eqb (it_conn a) (it_conn b) && kind_eqb (it_kind a) (it_kind b)
   && Z.eqb (it_tag a) (it_tag b) && Z.eqb (it_seq a) (it_seq b).
 
+(* never decreasing: the copies of one push delivered to a connection listed several times in a
+   multi-target push carry the same counter; distinct items of one issuer never do *)
 Fixpoint increasing (l : list Z) : bool :=
   match l with
-  | a :: ((b :: _) as r) => Z.ltb a b && increasing r
+  | a :: ((b :: _) as r) => Z.leb a b && increasing r
   | _ => true
   end.
 
 Definition issuers : list Z := [0; 1; 2; 3].
 
-(* the acceptance condition of theorem C03_order at a drained state, for the harness's issue
-   logs: every issuer's arrivals on every connection are exactly what it issued for it, in
-   order; nothing else arrived *)
+(* tags of the requests of a history (0 = the front's error responses) *)
+Definition tags_of (ops : list op) : list Z :=
+  0 :: flat_map (fun o => match o with OSend _ _ _ _ tag _ _ _ => [tag] | _ => [] end) ops.
+
+Definition proj3 (i c t : Z) (l : list item) : list item :=
+  filter (fun x => Z.eqb (it_iss x) i && Z.eqb (it_conn x) c && Z.eqb (it_tag x) t) l.
+
+(* Acceptance of an observed arrival sequence.  An issuer serves the requests of DIFFERENT
+   connections in an order the history does not determine, and with multi-target pushes the
+   items it sends to one connection stem from requests of several connections; so the arrivals
+   are compared with the issue log request by request (per issuer, connection and request tag:
+   exactly the issued items, in issue order; nothing else arrived), and the order ACROSS the
+   requests of one issuer is checked against the issue counters ([in_issue_order] below:
+   arrival order = issue order iff the counters increase). *)
 Definition accepts (ops : list op) (obs : list (Z * list ev)) : bool :=
-  let issued := issue_from [] ops in     (* proj i c issued = proj i c (issue_log ops i), see Proofs.proj_issue_log *)
+  let issued := issue_from [] ops in
+  let tags := tags_of ops in
   list_eqb Z.eqb (map fst obs) (map fst (conns_of ops))
   && forallb (fun ce =>
-       let arr := arrivals (fst ce) (snd ce) in
-       forallb (fun x => zmem (it_iss x) issuers) arr
-       && forallb (fun i => list_eqb item_eqb (proj i (fst ce) arr) (proj i (fst ce) issued)) issuers) obs.
+       let c := fst ce in
+       let arr := arrivals c (snd ce) in
+       Nat.eqb (length arr) (length (filter (fun x => Z.eqb (it_conn x) c) issued))
+       && forallb (fun i => forallb (fun t =>
+            list_eqb item_eqb (proj3 i c t arr) (proj3 i c t issued)) tags) issuers) obs.
 
 (* the order property alone, read off the issue counters the items carry: per connection and
-   issuer the counters arrive strictly increasing (pushes never overtake each other, a push
+   issuer the counters never decrease on arrival (pushes never overtake each other, a push
    issued before the response arrives before it) *)
 Definition in_issue_order (obs : list (Z * list ev)) : bool :=
   forallb (fun ce => forallb (fun i => increasing (counters i (snd ce))) issuers) obs.
